@@ -23,6 +23,13 @@ func c18Gen(rt *rapid.T) e4Case {
 		// connection: the one of the first transmission, or (after a drop / cut) the retransmitting one
 		c.Faults = append(c.Faults, e4Fault{Kind: "dropAck", Conn: rapid.IntRange(1, i+1).Draw(rt, "conn"), Type: rapid.SampledFrom(ackTypes).Draw(rt, "ack"), Nth: rapid.SampledFrom([]int{1, 1, 2}).Draw(rt, "nth")})
 	}
+	if rapid.IntRange(0, 3).Draw(rt, "stall") == 0 {
+		// a broker that stops reading as well as answering, with the keep-alive as a second writer: the j-th packet
+		// (j >= 2) is never answered and every later Write blocks until the client closes the transport
+		c.Faults = append(c.Faults, e4Fault{Kind: "stall", Conn: rapid.IntRange(1, 2).Draw(rt, "stallConn"), Pkt: rapid.IntRange(2, 5).Draw(rt, "stallPkt")})
+		c.Cfg.PingMs = rapid.IntRange(2, 5).Draw(rt, "pingMs2")
+		c.Cfg.PingTimeoutMs = 50
+	}
 	if rapid.Bool().Draw(rt, "withCut") {
 		c.Faults = append(c.Faults, e4Fault{Kind: "cutType", Conn: 1, Type: rapid.SampledFrom([]int{rtPublish, rtPubRel, rtSubscribe, rtUnsubscribe}).Draw(rt, "cutType"), Nth: 1, After: rapid.Bool().Draw(rt, "after")})
 	}
@@ -98,6 +105,12 @@ func c18Oracle(r *e4Result) (string, []string, bool) {
 			if !redial {
 				return fmt.Sprintf("connection c%d was closed after the response timeout (#%d) but no new connection was dialled", e.Conn, closeSeq), labels, drops > 0
 			}
+		}
+	}
+	for _, e := range r.Log {
+		if e.Kind == "STALL" {
+			drops++
+			labels = append(labels, "c18:peer-stopped-reading")
 		}
 	}
 	if msg := e4OracleC01(r); msg != "" {
